@@ -51,6 +51,8 @@ func c13DrawSchedule(rt *rapid.T, nOpens int, cfg gen.Cfg) c13Schedule {
 		o.StrictMode = rapid.IntRange(0, 3).Draw(rt, "strict") == 0
 		o.NoStatistics = rapid.IntRange(0, 7).Draw(rt, "nostat") == 0
 		o.AllocSize = rapid.SampledFrom([]int{0, 0, 0, 16 << 10, 64 << 10}).Draw(rt, "allocsize") // growth chunk: performance only
+		o.Logger = rapid.IntRange(0, 3).Draw(rt, "logger") == 0
+		o.MmapPopulate = rapid.IntRange(0, 5).Draw(rt, "populate") == 0
 		o.TimeoutMs = rapid.SampledFrom([]int{0, 0, 0, 50, 2000}).Draw(rt, "timeoutms") // lock wait limit: never reached here
 		s.Opens = append(s.Opens, o)
 		s.ROProbe = append(s.ROProbe, rapid.SampledFrom([]int{0, 0, 1, 2}).Draw(rt, "roprobe"))
